@@ -226,6 +226,8 @@ const TOKENS: &[&str] = &[
     "-170141183460469231731687303715884105728", "170141183460469231731687303715884105728",
     "-340282366920938463463374607431768211456", "-999999999999999999999999999999999999999999", "99999999999999999999999999999999999999999",
     "¬", "À", "\u{3000}", "ì",
+    // one char at each boundary of the UTF-8 lead-byte classes
+    "\u{80}", "\u{7ff}", "\u{800}", "\u{fff}", "\u{d7ff}", "\u{e000}", "\u{f000}", "\u{feff}", "\u{ffff}", "\u{10000}", "\u{3ffff}", "\u{10ffff}",
     "127", "128", "-0", "0255", "00000256", "-00128", "000000000000000000000000000000000000000001",
     "à", "\u{a0}", "Å", "É", "Ê", "\u{8d}", "😅", "\u{2028}", "\u{85}", "ᄀ", "\u{ac}",
 ];
